@@ -3,12 +3,14 @@
 package main
 
 import (
+	"encoding/base64"
 	"fmt"
 	"github.com/alicebob/miniredis/v2"
 	"github.com/alicebob/miniredis/v2/server"
 	"net/http"
 	"net/http/httptest"
 	"net/url"
+	"sort"
 	"strings"
 	"sync"
 	"testing"
@@ -16,6 +18,7 @@ import (
 
 	"github.com/oauth2-proxy/oauth2-proxy/v7/pkg/apis/options"
 	sessionsapi "github.com/oauth2-proxy/oauth2-proxy/v7/pkg/apis/sessions"
+	"github.com/oauth2-proxy/oauth2-proxy/v7/pkg/encryption"
 )
 
 func init() { vDrivers["C11"] = driveC11 }
@@ -59,6 +62,7 @@ func driveC11(t *testing.T, out *vEmitter) {
 	vExploreSignOutFlaky(t, out, vSchedEnv(t))
 	vC11RealRedisSignOut(t, out)
 	vC11RealRedisFaults(t, out)
+	vC11UnusableCookieSignOut(t, out)
 
 	type cfg struct {
 		name    string
@@ -188,8 +192,9 @@ func vSignOutHistory(t *testing.T, out *vEmitter, name string, redis bool, domai
 		out.Violation("sign-out/panic", fmt.Sprint(res.Panic), map[string]interface{}{"history": label})
 	}
 	success := res.Status == 302
-	// 1. every presented session cookie is deleted with the name, path and domain it was set with
-	if success || !redis {
+	// 1. every presented session cookie is deleted with the name, path and domain it was set with - whether or not the
+	// stored session could be removed (the answer is then the error page, the deletion is still there)
+	{
 		for n := range presented {
 			if strings.HasSuffix(n, "_csrf") {
 				continue
@@ -382,6 +387,109 @@ func vC11RealRedisFaults(t *testing.T, out *vEmitter) {
 			if res.Status == 302 && (left > 0 || replay.Status == 202) {
 				out.Violation("signout/success-while-session-stored", "sign-out answered with the success redirect although the stored session could not be removed",
 					det)
+			}
+		}
+	}
+}
+
+// vC11UnusableCookieSignOut: sign-out by a browser whose session cookie the proxy can no longer use (its signature is
+// older than cookie-expire, it was signed under a previous secret, it is truncated, it is another application's cookie of
+// the same name): whatever the status, the response deletes every presented cookie of the session family with the
+// configured path and domain, for both stores - otherwise the browser keeps a cookie no page of the proxy ever removes.
+func vC11UnusableCookieSignOut(t *testing.T, out *vEmitter) {
+	for _, redis := range []bool{false, true} {
+		for _, domains := range [][]string{nil, {".example.com"}} {
+			domains := domains
+			e := vNewEnv(t, vEnvCfg{oidc: true, redis: redis, mod: func(o *options.Options) {
+				o.Cookie.Domains = domains
+				o.Cookie.Expire = 2 * time.Hour
+				o.Cookie.Refresh = 0
+				o.Providers[0].OIDCConfig.InsecureSkipNonce = true
+			}})
+			name := e.opts.Cookie.Name
+			for _, big := range []bool{false, true} {
+				if big && redis {
+					continue
+				}
+				tokLen := 30
+				if big {
+					tokLen = 6000
+				}
+				b := e.newBrowser("https://app.example.com")
+				b.seedSession("user@example.com", time.Minute, tokLen)
+				good := b.jar.Cookies(b.origin)
+				resign := func(v string, secret string, at time.Time, cname string) string {
+					parts := strings.Split(v, "|")
+					raw, err := base64.URLEncoding.DecodeString(parts[0])
+					if err != nil {
+						return v
+					}
+					sv, err := encryption.SignedValue(secret, cname, raw, at)
+					if err != nil {
+						return v
+					}
+					return sv
+				}
+				variants := map[string]func(c *http.Cookie) string{
+					"signature-older-than-cookie-expire": func(c *http.Cookie) string {
+						return resign(c.Value, e.opts.Cookie.Secret, time.Now().Add(-3*time.Hour), c.Name)
+					},
+					"signed-under-a-previous-secret": func(c *http.Cookie) string {
+						return resign(c.Value, "0123456789abcdefPREVIOUSsecret_!", time.Now(), c.Name)
+					},
+					"truncated":       func(c *http.Cookie) string { return c.Value[:len(c.Value)/2] },
+					"foreign-content": func(c *http.Cookie) string { return "some-other-applications-cookie" },
+					"empty-fields":    func(c *http.Cookie) string { return "||" },
+				}
+				var labels []string
+				for l := range variants {
+					labels = append(labels, l)
+				}
+				sort.Strings(labels)
+				for _, label := range labels {
+					var pairs []string
+					presented := map[string]bool{}
+					for _, c := range good {
+						if c.Name != name && !strings.HasPrefix(c.Name, name+"_") {
+							continue
+						}
+						pairs = append(pairs, c.Name+"="+variants[label](c))
+						presented[c.Name] = true
+					}
+					for _, target := range []string{"/oauth2/sign_out", "/oauth2/sign_out?rd=%2Fbye"} {
+						req, err := vRawRequest(vBuildRaw("GET", target, "app.example.com", [][2]string{{"Cookie", strings.Join(pairs, "; ")}}, ""))
+						if err != nil {
+							continue
+						}
+						res := e.serve(req)
+						out.Obs("sign-out-unusable-cookie", true, vL(vBool(redis), vBool(len(domains) > 0), vBool(big), vS(label), vS(target), vI(int64(res.Status))))
+						out.Stat("sign_out_unusable_cookie", 1)
+						det := map[string]interface{}{"store_redis": redis, "cookie_domains": domains, "split": big, "cookie": label, "target": target, "status": res.Status}
+						if res.Panic != nil {
+							det["panic"] = fmt.Sprint(res.Panic)
+							out.Violation("sign-out/panic", "sign-out panicked on an unusable session cookie", det)
+							continue
+						}
+						wantDomain := strings.TrimPrefix(vRefDomain("app.example.com", domains), ".")
+						for n := range presented {
+							found := false
+							for _, c := range res.Cookies {
+								if c.Name == n && c.MaxAge < 0 {
+									found = true
+									if c.Path != e.opts.Cookie.Path || c.Domain != wantDomain {
+										det["deleted_with"] = [2]string{c.Domain, c.Path}
+										out.Violation("sign-out/deletion-attrs", "a deletion does not use the path/domain the cookie was set with", det)
+									}
+								}
+							}
+							if !found {
+								det["not_deleted"] = n
+								out.Violation("sign-out/cookie-not-deleted", "the sign-out response does not delete a session cookie the browser presented", det)
+								break
+							}
+						}
+					}
+				}
 			}
 		}
 	}
